@@ -480,8 +480,41 @@ func DiffObs(a, b *Obs, opt DiffOpts) []Delta {
 	return out
 }
 
+// KeyClass names the kinds of the list keys on a path ("" when there are none):
+// the sorted distinct Go kinds of the key values; float keys whose shortest
+// representation needs an exponent are "float64e".
+func KeyClass(elems []PathElem) string {
+	set := map[string]bool{}
+	for _, e := range elems {
+		for _, v := range e.Keys {
+			k := v
+			if i := strings.Index(v, ":"); i >= 0 {
+				k = v[:i]
+				if k == "float64" && strings.ContainsAny(v[i+1:], "eE") {
+					k = "float64e"
+				}
+			}
+			if k == "float64e" { // only notable key classes enter signatures
+				set[k] = true
+			}
+		}
+		if e.Pos >= 0 {
+			set["unkeyed"] = true
+		}
+	}
+	if len(set) == 0 {
+		return ""
+	}
+	ks := make([]string, 0, len(set))
+	for k := range set {
+		ks = append(ks, k)
+	}
+	sort.Strings(ks)
+	return "@keys(" + strings.Join(ks, ",") + ")"
+}
+
 func leafFeat(l *Leaf) string {
-	f := l.Feature()
+	f := l.Feature() + KeyClass(l.Elems)
 	if isEmptyLL(l) {
 		f += ":empty"
 	}
@@ -540,6 +573,24 @@ func (o *Obs) Clone() *Obs {
 		n.Shape[k] = v
 	}
 	return n
+}
+
+// AltIndex maps every alternative data path of every observed leaf (compressed
+// structs give a leaf several paths, e.g. config/name and name) to the leaf's
+// primary path.
+func (o *Obs) AltIndex() map[string]string {
+	idx := map[string]string{}
+	for p, l := range o.Leaves {
+		idx[p] = p
+		if l.Field == nil || len(l.Field.AltPaths) < 2 {
+			continue
+		}
+		base := l.Elems[:len(l.Elems)-len(l.Field.Path)]
+		for _, ap := range l.Field.AltPaths {
+			idx[PathString(extend(base, ap))] = p
+		}
+	}
+	return idx
 }
 
 // HasPrefixPath reports whether path p is at or below prefix pre (both
